@@ -24,7 +24,7 @@ def generate(rng: random.Random, tier: str):
     thorough = tier == 'thorough'
     cases = []
     for _ in range(3000 if thorough else 300):
-        cases.append({'kind': 'convert', 'quat': rng.choice(['generic', 'generic', 'near_identity', 'near_pi', 'axis', 'unnormalised']),
+        cases.append({'kind': 'convert', 'quat': rng.choice(['generic', 'generic', 'near_identity', 'near_pi', 'axis', 'unnormalised', 'tiny']),
                       'seq': rng.choice(SEQS), 'intrinsic': rng.random() < 0.5, 'degrees': rng.random() < 0.5, 'batch': rng.choice([0, 0, 1, 3]),
                       'gimbal': rng.random() < 0.15, 'seed': rng.randrange(1 << 30)})
     for _ in range(600 if thorough else 80):
@@ -63,7 +63,7 @@ def run_convert(case, drv) -> Outcome:
     cfg = f'quat {case["quat"]} gimbal {case["gimbal"]} seq {seq} degrees {deg} batch {nb} seed {case["seed"]}'
     viol = None
     corr = None
-    near = case['quat'] in ('near_pi', 'near_identity') or case['gimbal']
+    near = case['quat'] in ('near_pi', 'near_identity', 'tiny') or case['gimbal']
     tol = 1e-6 if near else TOL
 
     def v(sig, what):
@@ -80,6 +80,18 @@ def run_convert(case, drv) -> Outcome:
             viol = viol or v('as_rotvec', f'as_rotvec {R.as_rotvec(degrees=deg).tolist()} vs scipy {S.as_rotvec(degrees=deg).tolist()}')
         if not rmat(R.magnitude(), S.magnitude(), tol * 10):
             viol = viol or v('magnitude', 'magnitude differs from scipy')
+        # small angles are resolved relative to their size (the angle is 2 atan2(|xyz|, |w|), well conditioned everywhere), in
+        # double and in single precision
+        mag_ref = np.atleast_1d(S.magnitude())
+        mag = np.atleast_1d(np.asarray(R.magnitude(), dtype=np.float64))
+        if mag.shape == mag_ref.shape and bool(np.any(np.abs(mag - mag_ref) > 1e-13 + 1e-6 * mag_ref)):
+            viol = viol or v('magnitude-relative', f'magnitude {mag.tolist()} differs from scipy {mag_ref.tolist()} by more than 1e-6 relative')
+        q32 = torch.atleast_2d(R.as_quat()).to(torch.float32)
+        R32 = Rotation.from_quat(q32)
+        ref32 = np.atleast_1d(SR.from_quat(q32.double().numpy()).magnitude())
+        mag32 = np.asarray(R32.magnitude(), dtype=np.float64).reshape(-1)
+        if bool(np.any(np.abs(mag32 - ref32) > 1e-9 + 2e-5 * ref32)):
+            viol = viol or v('magnitude-float32', f'single precision magnitude {mag32.tolist()} differs from scipy on the same quaternion {ref32.tolist()} by more than 2e-5 relative')
         # euler: angles must agree away from gimbal lock; the rotation must round-trip always
         st, e = call(lambda: R.as_euler(seq, degrees=deg))
         if st != 'ok':
@@ -97,6 +109,23 @@ def run_convert(case, drv) -> Outcome:
         Rm = Rotation.from_matrix(noisy)
         if not rmat(Rm.as_matrix(), m, 1e-7):
             viol = viol or v('from_matrix', 'from_matrix of a nearly orthogonal matrix differs from the rotation')
+        # a matrix that is only roughly a rotation (direction cosines rounded to 2-3 decimals, noisy or slightly scaled): the result is
+        # a proper rotation near it - unit quaternion, orthogonal matrix of determinant +1, lengths preserved
+        pert = rng.choice([1e-3, 5e-3, 2e-2])
+        rough = m * rng.choice([1.0, 1.0 + pert, 1.0 - pert]) + pert * torch.tensor(np.random.default_rng(case['seed'] + 1).uniform(-1, 1, m.shape))
+        st_r, Rr = call(lambda: Rotation.from_matrix(rough))
+        if st_r != 'ok':
+            viol = viol or v('from_matrix-rough-raises', f'from_matrix of a roughly orthogonal matrix raises {Rr}')
+        else:
+            qr = torch.atleast_2d(Rr.as_quat()).double()
+            mr = Rr.as_matrix().double()
+            eye = torch.eye(3, dtype=torch.float64)
+            if float((qr.norm(dim=-1) - 1).abs().max()) > 1e-9:
+                viol = viol or v('from_matrix-unit', f'from_matrix of a roughly orthogonal matrix (perturbation {pert}) stores a quaternion of norm {qr.norm(dim=-1).tolist()}')
+            elif float((mr @ mr.transpose(-1, -2) - eye).abs().max()) > 1e-9 or float((torch.linalg.det(mr) - 1).abs().max()) > 1e-9:
+                viol = viol or v('from_matrix-orthogonal', f'from_matrix of a roughly orthogonal matrix (perturbation {pert}) is not a proper rotation')
+            elif float((mr - m).abs().max()) > 20 * pert:
+                viol = viol or v('from_matrix-near', f'from_matrix of a roughly orthogonal matrix (perturbation {pert}) is {float((mr - m).abs().max()):.2e} away from it')
         rv = torch.as_tensor(S.as_rotvec(degrees=deg))
         if not rmat(Rotation.from_rotvec(rv, degrees=deg).as_matrix(), m, 1e-8):
             viol = viol or v('from_rotvec', 'from_rotvec(scipy rotvec) differs')
